@@ -211,7 +211,7 @@ def oracle_file(case) -> list:
     from rnapolis.common import GlycosidicBond
 
     path = os.path.join(REPO, "tests", case["file"])
-    if case.get("variant") == "icode-runs":
+    if case.get("variant") in ("icode-runs", "reverse-numbering"):
         return _with_renumbered_copy(path, case)
     return _oracle_path(path, case)
 
@@ -230,7 +230,11 @@ def _with_renumbered_copy(path, case):
                 if key not in per_chain:
                     per_chain[key] = len(per_chain)
                 r = per_chain[key]
-                line = line[:22] + f"{10 + r // 2:>4}" + (" " if r % 2 == 0 else "A") + line[27:]
+                if case.get("variant") == "reverse-numbering":
+                    # a chain numbered against its strand direction (3' -> 5'): legal, hardly ever deposited
+                    line = line[:22] + f"{5000 - r:>4} " + line[27:]
+                else:
+                    line = line[:22] + f"{10 + r // 2:>4}" + (" " if r % 2 == 0 else "A") + line[27:]
             elif line.startswith(("TER", "ANISOU", "SIGATM", "SIGUIJ", "MODRES", "LINK", "SSBOND", "CONECT", "HET ", "SITE")):
                 continue
             lines.append(line)
@@ -306,6 +310,19 @@ def _oracle_path(path, case) -> list:
     inverted = 0
     wrong, undefined, missing = [], [], []
     # reference values for the table from the v2 segments themselves (same atoms), own formula
+    # who is bonded to whom is read off the coordinates (O3' of the 5' neighbour within 2.4 A of P), not off the order
+    # in which the library lists a segment: the 5' / 3' neighbours in the torsion definitions are the BONDED ones
+    everyone = [r for seg_ in st.connected_residues for r in seg_]
+    o3 = [(r, np.array(r.find_atom("O3'").coordinates, dtype=float)) for r in everyone if r.find_atom("O3'") is not None]
+    pp = [(r, np.array(r.find_atom("P").coordinates, dtype=float)) for r in everyone if r.find_atom("P") is not None]
+    bonded_prev, bonded_next = {}, {}
+    for r, p_xyz in pp:
+        cands = [(float(np.linalg.norm(p_xyz - o_xyz)), q) for q, o_xyz in o3 if q is not r]
+        cands = [c for c in cands if c[0] < 2.4]
+        if cands:
+            q = min(cands, key=lambda c: c[0])[1]
+            bonded_prev[id(r)] = q
+            bonded_next[id(q)] = r
     for seg in st.connected_residues:
         for i, res in enumerate(seg):
             rows = ta[(ta["chain_id"] == res.chain_id) & (ta["residue_number"] == res.residue_number)]
@@ -315,21 +332,36 @@ def _oracle_path(path, case) -> list:
                 continue
             row = rows.iloc[0]
             for name, spec in BACKBONE.items():
-                pts = []
+                pts, listed = [], True
                 for an, off in spec:
-                    k = i + off
-                    a = seg[k].find_atom(an) if 0 <= k < len(seg) else None
+                    who = res
+                    if off != 0:
+                        # the neighbour the segment lists is taken when it IS bonded on that side (where overlapping
+                        # conformers offer several partners within bonding distance any of them is right); otherwise
+                        # the residue the coordinates say is bonded there, if any
+                        k = i + off
+                        listed_nb = seg[k] if 0 <= k < len(seg) else None
+                        five, three = (listed_nb, res) if off < 0 else (res, listed_nb)
+                        ok = False
+                        if listed_nb is not None and five.find_atom("O3'") is not None and three.find_atom("P") is not None:
+                            ok = float(np.linalg.norm(np.array(five.find_atom("O3'").coordinates, dtype=float) - np.array(three.find_atom("P").coordinates, dtype=float))) < 2.4
+                        who = listed_nb if ok else (bonded_prev.get(id(res)) if off < 0 else bonded_next.get(id(res)))
+                    a = who.find_atom(an) if who is not None else None
                     pts.append(None if a is None else np.array(a.coordinates, dtype=float))
+                    k = i + off
+                    if off != 0 and not (0 <= k < len(seg) and seg[k] is who):
+                        listed = False  # the bonded neighbour is not the one listed next to it in the segment
                 val = row[name]
                 absent = val is None or (isinstance(val, float) and math.isnan(val))
                 if any(p is None for p in pts):
-                    # one of the four defining atoms does not exist (first/last residue of a connected segment,
-                    # missing atom): the torsion is not defined, so any number in the table is a wrong value
+                    # one of the four defining atoms does not exist (no bonded neighbour on that side, missing atom):
+                    # the torsion is not defined, so any number in the table is a wrong value
                     if not absent:
                         undefined.append((str(res), name, float(val)))
                     continue
                 if absent:
-                    missing.append((str(res), name))
+                    if listed:
+                        missing.append((str(res), name))
                     continue
                 ref = ref_dihedral(*pts)
                 n_tab += 1
@@ -403,6 +435,7 @@ def plan(tier, seed):
         specs += [{"kind": "lattice", "examples": 1500, "seed": seed * 1000 + 700}]
         specs += [{"kind": "corpus", "files": [f]} for f in QUICK_FILES]
         specs += [{"kind": "corpus", "files": ["1ATO.pdb"], "variant": "icode-runs"}, {"kind": "corpus", "files": ["1ATO.pdb"], "variant": "row-selection"},
+                  {"kind": "corpus", "files": ["1ATO.pdb"], "variant": "reverse-numbering"},
                   {"kind": "corpus", "files": ["184D.cif"], "variant": "row-selection"}]
     else:
         specs += [{"kind": "built", "examples": 60000, "seed": seed * 1000 + k} for k in range(16)]
@@ -410,6 +443,7 @@ def plan(tier, seed):
         specs += [{"kind": "corpus", "files": [f]} for f in corpus_files()]
         specs += [{"kind": "corpus", "files": [f], "variant": "icode-runs"} for f in corpus_files() if f.endswith(".pdb")]
         specs += [{"kind": "corpus", "files": [f], "variant": "row-selection"} for f in corpus_files()]
+        specs += [{"kind": "corpus", "files": [f], "variant": "reverse-numbering"} for f in corpus_files() if f.endswith(".pdb")]
     return specs
 
 
@@ -469,7 +503,7 @@ def run_shard(spec) -> ShardResult:
             check_case(PROP_ID, oracle_file, case, res, to_json=lambda c: {k: v for k, v in c.items() if not k.startswith("_")})
             n_chi, n_tab = case.get("_counts", (0, 0))
             res.note_case({"file": fn, "variant": spec.get("variant"), "chi_values": n_chi, "table_values": n_tab}, n_chi > 0,
-                          ["corpus-file"] + ({"icode-runs": ["renumbered-onto-insertion-code-runs"], "row-selection": ["table-is-a-row-selection"]}.get(spec.get("variant"), [])))
+                          ["corpus-file"] + ({"icode-runs": ["renumbered-onto-insertion-code-runs"], "row-selection": ["table-is-a-row-selection"], "reverse-numbering": ["chain-numbered-3'-to-5'"]}.get(spec.get("variant"), [])))
             res.extra["corpus_chi_values"] = res.extra.get("corpus_chi_values", 0) + n_chi
             res.extra["corpus_table_values"] = res.extra.get("corpus_table_values", 0) + n_tab
         res.exhaustive = False
